@@ -560,6 +560,7 @@ func (r *Runner) cmd(ctx context.Context, cm syntax.Command) {
 			r.cmd(ctx, cm.Else)
 		}
 	case *syntax.WhileClause:
+		var last exitStatus // of the last run of the body: the status of the loop
 		for !r.stop(ctx) {
 			oldNoErrExit := r.noErrExit
 			r.noErrExit = true
@@ -567,10 +568,17 @@ func (r *Runner) cmd(ctx context.Context, cm syntax.Command) {
 			r.noErrExit = oldNoErrExit
 
 			stop := r.exit.ok() == cm.Until
-			r.exit.clear()
-			if stop || r.loopStmtsBroken(ctx, cm.Do) {
+			if stop {
+				if !r.exit.exiting && !r.exit.returning {
+					r.exit = last
+				}
 				break
 			}
+			r.exit.clear()
+			if r.loopStmtsBroken(ctx, cm.Do) {
+				break
+			}
+			last = r.exit
 		}
 		r.loopDone()
 	case *syntax.ForClause:
